@@ -412,6 +412,7 @@ func (rs *ResourceSubscription) processGetResponse(payload []byte, err error) (n
 		for sub := range rs.subs {
 			nrs.subs[sub] = struct{}{}
 		}
+		verifNote("cacheLink", "name", rs.e.ResourceName, "query", rs.query, "to", nrs.query, "subs", len(nrs.subs))
 	} else {
 		nrs = rs
 	}
